@@ -57,7 +57,13 @@ pub enum DecForm {
     Symbols,
     Try,
     Iid,
+    /// `decode_iid_symbols(n, model)` consumed with `next()` for the first n-1 items and then
+    /// `nth(k)` with k beyond the end: the last symbol is decoded and dropped by the adaptor
+    /// (its value is unobservable: the result list ends with the marker `NTH_MARKER`)
+    IidNth,
 }
+
+pub const NTH_MARKER: &str = "<consumed by nth>";
 
 pub trait EncAll<W>:
     Encode<1, Word = W>
@@ -186,6 +192,41 @@ pub trait WordOps: BitArray {
 
 // Because `macro_rules` cannot splice match arms from a nested invocation, the arms are
 // generated by one flat macro per word level instead.
+/// drain a batch-decode iterator, checking `size_hint()` / `len()` before the first and after
+/// the first item; a wrong answer is appended to the results as a pseudo error (the worlds
+/// compare batch results with the per-symbol loop, so it surfaces there)
+macro_rules! checked_batch {
+    ($it:expr, $n:expr, $conv:expr) => {{
+        let mut it = $it;
+        let n: usize = $n;
+        let mut bad: Option<String> = None;
+        if it.size_hint() != (n, Some(n)) || it.len() != n {
+            bad = Some(format!("size_hint() = {:?}, len() = {} for a batch of {}", it.size_hint(), it.len(), n));
+        }
+        let mut v: Vec<DecRes> = Vec::new();
+        if let Some(x) = it.next() {
+            v.push($conv(x));
+            if it.size_hint() != (n - 1, Some(n - 1)) {
+                bad = Some(format!("size_hint() = {:?} after one of {} items", it.size_hint(), n));
+            }
+        }
+        // (bounded drain: an iterator that never ends must not hang the harness)
+        v.extend(it.by_ref().take(n + 2).map($conv));
+        if v.len() > n {
+            bad = Some(format!("the iterator yielded more than its {} items", n));
+            v.truncate(n);
+        }
+        // an exhausted iterator stays exhausted and decodes nothing more
+        if it.next().is_some() || it.nth(1).is_some() {
+            bad = Some(format!("the iterator yielded an item after it had reported its end ({} items)", n));
+        }
+        if let Some(b) = bad {
+            v.push(DecRes::Frontend(b));
+        }
+        v
+    }};
+}
+
 macro_rules! word_ops {
     ($W:ident; $( ($V:ident, $Prob:ty, $P:literal) ),* $(,)?) => {
         impl WordOps for $W {
@@ -309,10 +350,32 @@ macro_rules! word_ops {
                     $( (<$Prob>::BITS_U8, $P) => {
                         let get = getd::<$Prob, $P>;
                         match form {
-                            DecForm::Symbols => <C as Decode<$P>>::decode_symbols(c, models.iter().map(get))
-                                .map(dec_res).collect(),
-                            DecForm::Iid => <C as Decode<$P>>::decode_iid_symbols(c, models.len(), get(&models[0]))
-                                .map(dec_res).collect(),
+                            DecForm::Symbols => {
+                                // documented: lazy (nothing is decoded until the iterator is advanced) ...
+                                drop(<C as Decode<$P>>::decode_symbols(c, models.iter().map(get)));
+                                let it = <C as Decode<$P>>::decode_symbols(c, models.iter().map(get));
+                                // ... and exact-size if the models are
+                                checked_batch!(it, models.len(), dec_res)
+                            }
+                            DecForm::Iid => {
+                                drop(<C as Decode<$P>>::decode_iid_symbols(c, models.len(), get(&models[0])));
+                                let it = <C as Decode<$P>>::decode_iid_symbols(c, models.len(), get(&models[0]));
+                                checked_batch!(it, models.len(), dec_res)
+                            }
+                            DecForm::IidNth => {
+                                let n = models.len();
+                                let mut it = <C as Decode<$P>>::decode_iid_symbols(c, n, get(&models[0]));
+                                let mut v: Vec<DecRes> = Vec::new();
+                                for _ in 0..n.saturating_sub(1) {
+                                    match it.next() { Some(x) => v.push(dec_res(x)), None => break }
+                                }
+                                // beyond the end: the adaptor must still decode (and drop) what is left
+                                if it.nth(n + 2).is_some() {
+                                    v.push(DecRes::Frontend("nth() beyond the end returned an item".into()));
+                                }
+                                v.push(DecRes::Frontend(NTH_MARKER.into()));
+                                v
+                            }
                             DecForm::Try => {
                                 let n = models.len();
                                 let mut v: Vec<Result<Dyn<$Prob, $P>, i64>> = Vec::new();
@@ -320,7 +383,9 @@ macro_rules! word_ops {
                                     if Some(i) == fail_at { v.push(Err(i as i64)); }
                                     if i < n { v.push(Ok(get(&models[i]))); }
                                 }
-                                <C as Decode<$P>>::try_decode_symbols(c, v).map(try_dec_res).collect()
+                                let n_items = v.len();
+                                let it = <C as Decode<$P>>::try_decode_symbols(c, v);
+                                checked_batch!(it, n_items, try_dec_res)
                             }
                             DecForm::Loop => unreachable!(),
                         }
